@@ -559,7 +559,7 @@ class C20(Sim):
                 break
             budget[0] -= 1
             r = rng.random()
-            if r < 0.34 and depth < 4:
+            if r < 0.34 and depth < self.max_depth:
                 nk = rng.choice([1, 1, 2, 2, 3, 7]) if rng.random() < 0.9 else rng.randint(1, 7)
                 keys = rng.sample(KEYS, min(nk, 7))
                 kw = {key: rng.choice(VALUES[key]) for key in keys}
@@ -594,6 +594,8 @@ class C20(Sim):
                 out.append({"k": "obs", "what": "vars"})
         return out
 
+    max_depth = 4
+
     def gen_program(self, rng, raises: bool) -> list:
         budget = [rng.randint(4, 22)]
         prog = self.gen_block(rng, 0, budget, False, False, raises, set())
@@ -604,6 +606,8 @@ class C20(Sim):
         return prog
 
     def cases(self, rng, run: int, tier: str) -> Iterator[dict]:
+        # the property quantifies over nestings up to depth 4; the thorough tier goes to 6 in a quarter of the runs
+        self.max_depth = 6 if (tier == "thorough" and run % 8 >= 6) else 4
         arm = "enumerate" if run % 4 == 0 else ("linecrash" if run % 4 == 1 else "random")
         if arm == "random":
             for _ in range(8):
